@@ -28,7 +28,10 @@ def okAnd (r : Res) (p : Store → Bool) : Bool :=
   | .ok s' => p s'
   | _ => false
 
-def cfg0 : Cfg := { exc := [101, 102, 103], nodes := [1, 2] }
+def kinds0 : OutKinds :=
+  { materialized := [0, 163, 170, 164, 166, 169, 177], skipped := [161, 178], sideTypes := [163, 170, 164, 166, 177, 169] }
+
+def cfg0 : Cfg := { exc := [101, 102, 103], nodes := [1, 2], kinds := kinds0 }
 
 /-! ## a call that does not succeed changes nothing (atomic update) -/
 
@@ -359,8 +362,8 @@ theorem finalized_holder_stable (c : Cfg) (s : Store) (ops : List Op) (t : Nat) 
    fun b a hx => holder_stable_mint c s ops b (t, a) hx (Or.inl hfin)⟩
 
 example : (run cfg0 sample [.lockUTXOs [(9, 1)] 8 true, .lockUTXOs [(9, 1), (9, 2)] 5 true,
-    .snapshot 1 [{ id := 9, ins := [.genesis], outs := [[1], [2], [3]] }],
-    .snapshot 2 [{ id := 5, ins := [.utxo 9 0], outs := [[4]] }]]).utxo.get (9, 1) = some 6 := by decide
+    .snapshot 1 [{ id := 9, ins := [.genesis], outs := [⟨0, [1]⟩, ⟨164, [2]⟩, ⟨0, [3]⟩] }] .ok,
+    .snapshot 2 [{ id := 5, ins := [.utxo 9 0], outs := [⟨0, [4]⟩] }] .ok]).utxo.get (9, 1) = some 6 := by decide
 
 /-- `nonfork_holder_stable` (double-spend freedom of ordinary admission): over any history in
     which no call carries the fork flag — any mix of admissions by any transactions, body
